@@ -4,6 +4,6 @@ cd /verif
 prop=$1; i=$2
 WT=/tmp/wt-s1-$prop-$i-$$
 git -C /repo worktree add -q --detach $WT HEAD || exit 2
-(cd $WT && git apply ${PATCHDIR:-/tmp/seed3-$prop}/patch$i.diff) || { echo "PATCH DOES NOT APPLY"; }
+(cd $WT && git apply ${PATCHDIR:-/tmp/seed${WAVE:-3}-$prop}/patch$i.diff) || { echo "PATCH DOES NOT APPLY"; }
 VERIF_REPO_OVERRIDE=$WT VERIF_BUDGET_S=${3:-25} timeout 1500 ./check $prop quick 2>&1 | tail -${TAIL:-6} | cut -c1-${CUT:-400}
 git -C /repo worktree remove --force $WT
